@@ -25,6 +25,13 @@ C15 check, never ignored):
 * DynamicRFKickMap::apply / _calcKick (src/SM/DynamicRFKickMap.cpp): the order of `_calcKick()`,
   `KickMap::apply()`, `_past_modulation.emplace_back(front)`, `_next_modulation.pop()` -> gen_dyn_apply; the
   queue entry and components `_calcKick` hands to RFKickMap::_calcKick -> gen_dyn_calckick_args.
+* the class declarations of inc/SM/*.hpp (one class per header, named like the header; single inheritance below
+  SourceMap, whose applyTo must be pure virtual): per class the nearest class on the way up to SourceMap that declares
+  `applyTo` -> gen_applyTo_dispatch; the classes main() stores in the variables it calls `->applyToAll(trackme)` on ->
+  gen_tracked_classes; the bodies read here -> gen_applyTo_read (Identity::applyTo is checked to be empty).  A tracked
+  class that ends at an applyTo body other than KickMap's / FokkerPlanckMap's / Identity's (an override anywhere in
+  the hierarchy), a source map declared outside inc/SM, a second derived class in a header, multiple inheritance, an
+  applyTo template / using-declaration are TranslateErrors.
 
 Conventions of the emitted terms (Model/TrackX.v): float values that are certainly finite are `Qc` terms, the
 result of a float division and everything computed from it are `xval` terms; std::min/std::max on floats are
@@ -985,8 +992,12 @@ def member_call(n):
     return me.get("name"), (names[0] if len(names) == 1 else None)
 
 
+TRACKED = []        # (kind of map, class main() stores in a variable it calls ->applyToAll(trackme) on); filled by tr_main
+
+
 def tr_main():
     import steporder2coq as so
+    del TRACKED[:]
     docs = ast_of("src/main.cpp", "main")
     _, body = body_of(docs, "main")
     # ---- loading
@@ -1048,6 +1059,9 @@ def tr_main():
                 if args != ["trackme"]:
                     raise TranslateError("main(): applyToAll is not called on trackme")
                 evs.append("TTrack " + kind)
+                for c in sorted(cls.get(mc[1], set())):
+                    if (kind, c) not in TRACKED:
+                        TRACKED.append((kind, c))
             else:
                 evs.append("TApply " + kind)
             continue
@@ -1200,12 +1214,136 @@ def tr_dyn():
             "Definition gen_dyn_calckick_args : Z * Z := (%d, %d)." % ("; ".join(acts), comps[0], comps[1], comps[0], comps[1]))
 
 
+# ------------------------------------------------------------------------------------------- which applyTo runs
+
+READ_BODIES = ("KickMap", "FokkerPlanckMap", "Identity")    # applyTo bodies this translator reads (Identity: checked to be empty)
+ROOT = "SourceMap"
+
+
+def _record(header_rel, name):
+    """the complete CXXRecordDecl of vfps::<name> as declared in its header"""
+    for d in ast_of(header_rel, "vfps::" + name):
+        if d.get("kind") == "CXXRecordDecl" and d.get("name") == name and d.get("completeDefinition"):
+            return d
+    raise TranslateError("%s does not define class vfps::%s" % (header_rel, name))
+
+
+def tr_dispatch():
+    """class hierarchy below SourceMap (inc/SM/*.hpp) and, per class, the class whose applyTo body a virtual call runs.
+    SourceMap::applyToAll calls the virtual applyTo: the body that moves the particles of `<map>->applyToAll(trackme)` is the one
+    of the nearest class on the way from the object's class up to SourceMap that declares applyTo.  Every class main() tracks
+    particles through must end at a body this translator reads."""
+    import glob
+    hdrs = sorted(glob.glob(os.path.join(REPO, "inc", "SM", "*.hpp")))
+    if not hdrs:
+        raise TranslateError("no headers under inc/SM")
+    cre = re.compile(r"^\s*(?:class|struct)\s+(\w+)\b[^;{]*?:\s*(?:public|protected|private|virtual)?\s*([\w:]+)", re.M)
+    names = {}
+    for h in hdrs:
+        base = os.path.basename(h)[:-4]
+        text = re.sub(r"/\*.*?\*/|//[^\n]*", "", open(h, encoding="utf-8", errors="replace").read(), flags=re.S)
+        found = [m.group(1) for m in cre.finditer(text)]
+        if re.search(r"^\s*class\s+%s\b[^;]*\{" % base, text, re.M | re.S) is None:
+            raise TranslateError("inc/SM/%s.hpp does not declare class %s" % (base, base))
+        for f in found:
+            if f != base:
+                raise TranslateError("inc/SM/%s.hpp declares a second derived class %s (the translator reads one class per header)" % (base, f))
+        names[base] = os.path.relpath(h, REPO)
+    # a source map declared outside inc/SM would be missed
+    for h in glob.glob(os.path.join(REPO, "inc", "**", "*.hpp"), recursive=True):
+        if os.path.dirname(h) == os.path.join(REPO, "inc", "SM"):
+            continue
+        text = re.sub(r"/\*.*?\*/|//[^\n]*", "", open(h, encoding="utf-8", errors="replace").read(), flags=re.S)
+        for m in cre.finditer(text):
+            if m.group(2).split("::")[-1] in names:
+                raise TranslateError("%s declares class %s derived from %s outside inc/SM" % (os.path.relpath(h, REPO), m.group(1), m.group(2)))
+    parent, declares, where = {}, {}, {}
+    for c, h in sorted(names.items()):
+        rec = _record(h, c)
+        bases = [b.get("type", {}).get("qualType", "").split("::")[-1] for b in rec.get("bases", [])]
+        smb = [b for b in bases if b in names]
+        if c == ROOT:
+            if smb:
+                raise TranslateError("SourceMap has a source-map base class")
+        elif len(smb) != 1 or len(bases) != 1:
+            if not smb:
+                continue            # not a source map (helper class in inc/SM)
+            raise TranslateError("class %s has %d base classes (%s): expected single inheritance below SourceMap" % (c, len(bases), ", ".join(bases)))
+        parent[c] = smb[0] if smb else None
+        ms = [m for m in rec.get("inner", []) if m.get("kind") in ("CXXMethodDecl", "FunctionTemplateDecl", "UsingDecl")
+              and (m.get("name") or "").split("::")[-1] == "applyTo" and not m.get("isImplicit")]
+        if any(m.get("kind") != "CXXMethodDecl" for m in ms) or len(ms) > 1:
+            raise TranslateError("class %s declares applyTo %d times / as a template / by a using-declaration" % (c, len(ms)))
+        if ms:
+            m = ms[0]
+            if c == ROOT:
+                if not (m.get("virtual") and m.get("pure")):
+                    raise TranslateError("SourceMap::applyTo is not pure virtual: classes without their own applyTo would run it")
+                continue
+            declares[c] = m
+            where[c] = "%s:%s" % (h, line_of(m))
+    if ROOT not in parent:
+        raise TranslateError("SourceMap not found under inc/SM")
+
+    def chain(c):
+        seen = []
+        while c is not None:
+            if c in seen:
+                raise TranslateError("cyclic inheritance at %s" % c)
+            seen.append(c)
+            if c not in parent:
+                return None
+            c = parent[c]
+        return seen if seen[-1] == ROOT else None
+
+    table = []
+    for c in sorted(parent):
+        if c == ROOT:
+            continue
+        ch = chain(c)
+        if ch is None:
+            continue
+        tgt = [k for k in ch if k in declares]
+        if not tgt:
+            raise TranslateError("class %s: no class on the way up to SourceMap declares applyTo" % c)
+        table.append((c, tgt[0]))
+    disp = dict(table)
+    # Identity::applyTo must do nothing
+    if "Identity" in declares:
+        body = [k for k in kids(declares["Identity"]) if k.get("kind") == "CompoundStmt"]
+        if len(body) != 1 or any(not (k.get("kind") == "ReturnStmt" and not kids(k)) and k.get("kind") != "NullStmt" for k in kids(body[0])):
+            raise TranslateError("Identity::applyTo is not an empty body in the header")
+    if not TRACKED:
+        raise TranslateError("main(): no class found behind the variables applyToAll(trackme) is called on")
+    for kind, c in TRACKED:
+        if c not in disp:
+            raise TranslateError("main() tracks particles through %s, which is not a class below SourceMap in inc/SM" % c)
+        b = disp[c]
+        if b not in READ_BODIES:
+            others = sorted(k for k, v in disp.items() if v == b and k != b)
+            raise TranslateError("%s::applyTo (%s) is the body `->applyToAll(trackme)` runs for objects of class %s, and this translator does "
+                                 "not read it (it reads %s): the particles of %s are no longer moved by KickMap::applyTo / "
+                                 "FokkerPlanckMap::applyTo as modelled" % (b, where.get(b, "?"), ", ".join([b] + others), ", ".join(
+                                     "%s::applyTo" % r for r in READ_BODIES), "a " + c))
+    q = lambda x: '"%s"' % x
+    return ("(** class hierarchy below SourceMap as declared in inc/SM/*.hpp: (class, the class whose applyTo body the virtual call in\n"
+            "    SourceMap::applyToAll runs for an object of that class) - the nearest class on the way up to SourceMap that declares applyTo *)\n"
+            "Definition gen_applyTo_dispatch : list (string * string) :=\n  [%s]%%string.\n"
+            "(** main(): the classes it stores in the variables it calls `->applyToAll(trackme)` on, with the kind of the variable *)\n"
+            "Definition gen_tracked_classes : list (smap * string) :=\n  [%s]%%string.\n"
+            "(** the applyTo bodies this file holds: KickMap::applyTo (gen_kick_x, gen_kick_y), FokkerPlanckMap::applyTo (gen_fp_applyTo),\n"
+            "    Identity::applyTo (checked: empty body) *)\n"
+            "Definition gen_applyTo_read : list string := [%s]%%string." % (
+                "; ".join("(%s, %s)" % (q(a), q(b)) for a, b in table), "; ".join("(%s, %s)" % (k, q(c)) for k, c in TRACKED),
+                "; ".join(q(r) for r in READ_BODIES)))
+
+
 def translate():
-    parts = [tr_kick(), tr_fp(), tr_ps(), tr_append(), tr_main(), tr_dyn()]
+    parts = [tr_kick(), tr_fp(), tr_ps(), tr_append(), tr_main(), tr_dyn(), tr_dispatch()]
     head = ("(* GENERATED on every run by translate/track2coq.py from KickMap::applyTo, FokkerPlanckMap::applyTo,\n"
-            "   PhaseSpace::x/y/q/p/_qp, HDF5File::appendTracks, main() and DynamicRFKickMap::apply/_calcKick of the\n"
-            "   repository's working tree.  Do not edit.  Vocabulary: Model/TrackX.v. *)\n"
-            "From Coq Require Import List ZArith QArith Qcanon Bool.\n"
+            "   PhaseSpace::x/y/q/p/_qp, HDF5File::appendTracks, main(), DynamicRFKickMap::apply/_calcKick and the class\n"
+            "   declarations of inc/SM/*.hpp (which applyTo a virtual call runs) of the repository's working tree.  Do not edit.  Vocabulary: Model/TrackX.v. *)\n"
+            "From Coq Require Import List ZArith QArith Qcanon Bool String.\n"
             "From Inovesa Require Import Base.FieldKit Base.Float32 Model.Kick Model.Tracking Model.StepKinds Model.TrackX.\n"
             "Import ListNotations.\nLocal Open Scope Z_scope.\n\n")
     return head + "\n\n".join(parts) + "\n"
